@@ -116,7 +116,7 @@ private:
 };
 
 template <size_t... Is, size_t... Ms, typename F, typename... Vs>
-constexpr auto visit_with_index(index_sequence<Is...> i, index_sequence<Ms...> m, F&& f, Vs&&... vs)
+constexpr auto visit_with_index(index_sequence<Is...> i, index_sequence<Ms...> m, F&& f, Vs&&... vs) -> decltype(auto)
 {
     constexpr auto n = next_seq(i, m);
     if constexpr (sum(n) == 0) {
@@ -146,7 +146,7 @@ inline constexpr size_t zero = 0;
 /// \relates variant
 /// \ingroup variant
 template <typename F, typename... Vs>
-constexpr auto visit_with_index(F&& f, Vs&&... vs)
+constexpr auto visit_with_index(F&& f, Vs&&... vs) -> decltype(auto)
 {
     if constexpr (((detail::variant_size<Vs>() == 1) and ...)) {
         return f(detail::indexed_value<decltype(detail::get<0>(etl::forward<Vs>(vs))), 0>(
@@ -174,9 +174,9 @@ constexpr auto visit_with_index(F&& f, Vs&&... vs)
 /// \relates variant
 /// \ingroup variant
 template <typename F, typename... Vs>
-constexpr auto visit(F&& f, Vs&&... vs)
+constexpr auto visit(F&& f, Vs&&... vs) -> decltype(auto)
 {
-    return etl::visit_with_index([&](auto... parameter) {
+    return etl::visit_with_index([&](auto... parameter) -> decltype(auto) {
         return etl::forward<F>(f)(etl::move(parameter).value()...);
     }, etl::forward<Vs>(vs)...);
 }
